@@ -11,21 +11,28 @@ except Exception:
 META = dict(
     text=("Coq model of the OutRec ownership bookkeeping (SetOwner with its compression and cycle-avoidance loops, GetRealOutRec, "
           "IsValidOwner, MoveSplits, the owner assignments of the sweep) and of the owner search that builds the PolyTree "
-          "(CheckSplitOwner with the recursive_split marker, RecursiveCheckOwners, BuildTree64 loop) over abstract containment tests; "
-          "theorems for ALL operation histories: the owner graph stays a forest and every owner-chasing loop terminates, every parent "
-          "the tree uses was accepted by the code's own containment tests, IsHole = even non-zero Level, CheckSplitOwner's termination "
-          "(refuted for cyclic split lists of point-less OutRecs, proved otherwise as far as stated).  Tied to the code by exact comparison on "
-          "random/enumerated owner-edit sequences executed by the real functions and by comparing the real BuildTree64 with the model on "
-          "the dumped ownership state of whole runs.  The geometric content (paths equal to the Paths run, child inside parent, siblings "
-          "disjoint, orientation alternating with depth, areas equal) is validated by an extracted exact checker on nested / touching / "
-          "horizontally joined inputs for PolyTree64 and PolyTreeD."),
-    note=("Trusted: Coq kernel, extraction, OCaml driver, C++ harness with private access, generators.  Proved: ownership bookkeeping "
-          "for all histories; NOT proved: that Path1InsidePath2 agrees with true containment, sibling disjointness, depth <-> orientation "
-          "(validated by the exact checker on generated inputs)."),
+          "(CheckSplitOwner with the recursive_split marker, RecursiveCheckOwners in its shape before and after the proposed repair, "
+          "BuildTree64 loop) over abstract containment tests.  Theorems: for ALL histories of owner edits that respect the call-site "
+          "guarantee (SetOwner gets two different existing OutRecs) the owner graph stays a forest, no owner index dangles and every "
+          "owner-chasing loop terminates within the model's fuel (the statement without the guarantee is refuted, witness replayed on the "
+          "real SetOwner); for ALL ownership states and all answers of the geometric tests every parent the tree uses passed the code's own "
+          "Path1InsidePath2 and bounds.Contains tests for that pair; IsHole = even non-zero Level.  Tied to the code by exact comparison on "
+          "enumerated/random owner-edit sequences executed by the real functions and by comparing the real BuildTree64 with the model on "
+          "the dumped ownership state of whole runs (one and the same model shape must agree on every state).  The geometric content "
+          "(paths equal to the Paths run, child inside parent, siblings disjoint, orientation alternating with depth, areas equal) is "
+          "validated by an extracted exact checker on nested / touching / horizontally joined / lattice-rectangle inputs for PolyTree64 and "
+          "PolyTreeD; nesting failures are attributed to the responsible defect of the owner search from the dumped ownership state."),
+    note=("Trusted: Coq kernel, extraction, OCaml driver, C++ harness with private access, generators, the Python classifier of nesting "
+          "failures (naming only).  Proved: ownership bookkeeping for all histories, acceptance tests of every tree parent.  NOT proved: "
+          "termination of CheckSplitOwner/RecursiveCheckOwners (the model reports FUEL, never seen), that every OutRec with a path is "
+          "placed exactly once, that Path1InsidePath2 agrees with true containment, that the accepted parent is the innermost container, "
+          "sibling disjointness, depth <-> orientation (validated by the exact checker on generated inputs, where the unrepaired owner "
+          "search fails: see triage/C04.md)."),
     technique='Coq proof (forest invariant over all operation histories) + exact model/implementation correspondence + extracted exact checker',
     category='proof',
 )
 
+MAX_COORD = (2 ** 63 - 1) >> 2        # clipper.core.h: values beyond it are rejected with range_error_i
 CT = {1: 'Intersection', 2: 'Union', 3: 'Difference', 4: 'Xor'}
 FR = {0: 'EvenOdd', 1: 'NonZero', 2: 'Positive', 3: 'Negative'}
 KEYS = {31: 'tree.paths-differ', 32: 'tree.child-outside-parent', 33: 'tree.sibling-overlap', 34: 'tree.orientation-depth',
@@ -81,8 +88,18 @@ def enum_ops():
     return out
 
 
+REFUTED_WITNESS = 'OPS 1 1 S 0 0'        # C04_owner_forest_refuted_without_wf: [OpNew; OpSetOwner 0 0]
+
+
 def phase_ops(ctx, env, n):
     rng = ctx.rng.fork(21)
+    # the witness of the refuted form, on the real SetOwner: OutRec 0 becomes its own owner (and both sides agree on that)
+    w = vf.run_lines(env.exes['owner'], [REFUTED_WITNESS], timeout=20).stdout.strip()
+    wm = vf.run_lines(env.oracle, [REFUTED_WITNESS], timeout=20).stdout.strip()
+    ctx.cov['refuted_witness_replayed'] = dict(line=REFUTED_WITNESS, cpp=w, model=wm)
+    if w != wm or ': 0 ;' not in w:
+        ctx.violation('tie.owner-ops', 'the witness of C04_owner_forest_refuted_without_wf (SetOwner(x, x) makes x own itself) is not reproduced '
+                      'by the real SetOwner: C++ %s / model %s' % (w[:120], wm[:120]), replay=dict(kind='ops', line=REFUTED_WITNESS, cpp=w, model=wm), nofail=True)
     lines = enum_ops() + [rand_ops(rng) for _ in range(n)]
     a, fa = vf.par_lines(env.exes['owner'], lines, timeout=120)
     if fa:
@@ -118,6 +135,11 @@ def rect_case(rng):
         k = 2
         S = [polys.rect(0, 0, 20 * k, 20 * k), list(reversed(polys.rect(4 * k, 4 * k, 16 * k, 16 * k))), polys.rect(6 * k, 6 * k, 10 * k, 10 * k)]
         C, kind = [], 'fallback'
+    return dict(S=S, O=[], C=C, kind='rect:' + kind, geom='rect')
+
+
+def lattice_case(rng):
+    S, C, kind = nesting.gen_lattice_case(rng)
     return dict(S=S, O=[], C=C, kind='rect:' + kind, geom='rect')
 
 
@@ -339,13 +361,25 @@ def refine_keys(env, c, ct, fr, pc, rs, prec, r, codes):
     """tree_check codes -> [(key, node index)]: clauses 33/34 at a node whose mis-nesting is explained by one of the known
     mechanisms are reported under that mechanism's key (one key per defect), everything else under the clause's key"""
     out, memo = [], {}
+    nodes = r['nodes']
+
+    def mech(i):
+        if i not in memo:
+            memo[i] = classify_nesting(env, c, ct, fr, pc, rs, prec, nodes, i)
+        return memo[i]
     for code, idx in codes:
         key = KEYS[code]
-        if code in (33, 34) and not c.get('O'):
-            if idx not in memo:
-                memo[idx] = classify_nesting(env, c, ct, fr, pc, rs, prec, r['nodes'], idx)
-            if memo[idx]:
-                key = NEST + memo[idx]
+        if code in (33, 34) and not c.get('O') and 0 <= idx < len(nodes):
+            m = mech(idx)
+            if not m and code == 34:
+                # the depth of everything below a misplaced polygon is off as well: attribute it to that polygon's defect
+                j, d = idx, nodes[idx][0]
+                while j > 0 and d > 0 and not m:
+                    j -= 1
+                    if nodes[j][0] < d:
+                        d = nodes[j][0]; m = mech(j)
+            if m:
+                key = NEST + m
         if (key, idx) not in out:
             out.append((key, idx))
     return out
@@ -358,6 +392,8 @@ class Env:
 def setup(ctx):
     env = Env()
     env.exes = {}
+    env.shape = None
+    env.tie_miss = {v: [] for v in range(4)}
     env.oracle = vf.oracle_build('tree')
     env.region = vf.oracle_build('region')
     try:
@@ -368,7 +404,7 @@ def setup(ctx):
     return env
 
 
-def eval_one(env, c, ct, fr, pc, rs, prec=None, tie=True):
+def eval_one(env, c, ct, fr, pc, rs, prec=None, tie=True, shape=None):
     keys, det = set(), {}
     p = vf.run_lines(env.exes['owner'], [api_line(c, ct, fr, pc, rs, prec)], timeout=60)
     r = parse_api(p.stdout.strip()) if p.returncode == 0 else None
@@ -381,8 +417,8 @@ def eval_one(env, c, ct, fr, pc, rs, prec=None, tie=True):
     codes = parse_codes(o)
     if codes is None:
         raise vf.Infra('oracle CHECK failed: ' + o[:300])
-    for code, idx in codes:
-        keys.add(KEYS[code]); det.setdefault('nodes', {})[KEYS[code]] = idx
+    for key, idx in refine_keys(env, c, ct, fr, pc, rs, prec, r, codes):
+        keys.add(key); det.setdefault('nodes', {})[key] = idx
     det['tree'] = [(d, h, pth) for d, h, nc, pth in r['nodes']]
     det['closed'] = r['closed']
     if tie and prec is None:
@@ -391,9 +427,12 @@ def eval_one(env, c, ct, fr, pc, rs, prec=None, tie=True):
         if parts is None and not q.stdout.startswith('fail'):
             keys.add('crash.polytree')
         elif parts:
-            m = vf.run_lines(env.oracle, ['MTREE ' + parts[0]], timeout=120).stdout.strip()
-            if m != parts[1]:
-                keys.add('tie.tree'); det['model'] = m; det['cpp'] = parts[1]
+            # shapes of RecursiveCheckOwners the model is asked for: the one the whole run established, else all four
+            shapes = [shape] if shape is not None else ([env.shape] if getattr(env, 'shape', None) is not None else list(range(4)))
+            ms = vf.run_lines(env.oracle, ['MTREE %d %s' % (v, parts[0]) for v in shapes], timeout=120).stdout.strip().split('\n')
+            if parts[1] not in ms:
+                keys.add('tie.tree'); det['model'] = ms[0]; det['cpp'] = parts[1]
+            det['shapes_agreeing'] = [v for v, m in zip(shapes, ms) if m == parts[1]]
     return keys, det
 
 
@@ -471,6 +510,10 @@ def phase_api(ctx, env, cases, label, precs=(None,), combos=None):
         for ct, fr in cl:
             pc, rs = rng.below(2), rng.below(2)
             for prec in precs:
+                if prec is not None and polys.maxabs([c['S'], c.get('O', []), c['C']]) * 10 ** prec > MAX_COORD:
+                    # outside ClipperD's documented domain (it answers with the range error, by design): not a C04 case
+                    ctx.count('polytreeD_skipped_out_of_range')
+                    continue
                 jobs.append((ci, ct, fr, pc, rs, prec)); lines.append(api_line(c, ct, fr, pc, rs, prec))
     outs, fails = vf.par_lines(env.exes['owner'], lines, timeout=600)
     if fails:
@@ -506,9 +549,10 @@ def phase_api(ctx, env, cases, label, precs=(None,), combos=None):
         ctx.hist('tree_nodes', min(len(r['nodes']), 40) // 4 * 4)
         if depth >= 2:
             nontrivial.add((label, ci, ct, fr))
-        for code, idx in codes:
-            found.setdefault(KEYS[code], (k, idx))
-            ctx.hist('failing_evaluations_by_key', KEYS[code])
+        if codes:
+            for key, idx in refine_keys(env, cases[ci], ct, fr, pc, rs, prec, r, codes):
+                found.setdefault(key, (k, idx))
+                ctx.hist('failing_evaluations_by_key', key)
     ctx.cov['distinct_nontrivial'] = ctx.cov.get('distinct_nontrivial', 0) + len(nontrivial)
     for c in cases:
         ctx.hist('kind', c['kind'][:28])
@@ -559,26 +603,47 @@ def phase_tie_tree(ctx, env, cases, label, combos=None):
             continue
         ctx.hist('state_outrecs', min(n, 40) // 4 * 4)
         ctx.count('states_with_splits', 1 if nsplit else 0)
-        ml.append('MTREE ' + parts[0]); midx.append((k, parts[1]))
-    res, f2 = vf.par_lines(env.oracle, ml, timeout=900)
-    if f2:
-        raise vf.Infra('oracle MTREE failed: %s' % f2[0][2][:300])
-    first = None
-    for (k, cpp), m in zip(midx, res):
+        ml.append(parts[0]); midx.append((k, parts[1]))
+    res = []
+    for v in range(4):
+        rv, f2 = vf.par_lines(env.oracle, ['MTREE %d %s' % (v, st) for st in ml], timeout=900)
+        if f2:
+            raise vf.Infra('oracle MTREE failed: %s' % f2[0][2][:300])
+        res.append(rv)
+    for i, (k, cpp) in enumerate(midx):
         ctx.count('tie_tree_runs')
-        if m != cpp and first is None:
-            first = (k, cpp, m)
-    if first:
-        k, cpp, m = first
-        ci, ct, fr, pc, rs = jobs[k]
-        c = cases[ci]
-        try:
-            small = shrink(env, c, (ct, fr, pc, rs, None), 'tie.tree', budget=80)
-        except Exception:
-            small = dict(S=c['S'], O=c.get('O', []), C=c['C'], geom=c.get('geom'))
-        ctx.violation('tie.tree', '%s/%s %s: the real BuildTree64 and the ownership model build different trees from the same state: C++ %s / model %s'
-                      % (CT[ct], FR[fr], c['kind'], cpp[:120], m[:120]),
-                      replay=dict(kind='case', case=small, ct=ct, fr=fr, pc=pc, rs=rs, prec=None, key='tie.tree'), nofail=True)
+        ans = [res[v][i] for v in range(4)]
+        if len(set(ans)) > 1:
+            ctx.count('tie_tree_runs_that_tell_the_shapes_apart')
+        for v in range(4):
+            if ans[v] != cpp:
+                env.tie_miss[v].append((label, cases[jobs[k][0]], jobs[k], cpp, ans[v]))
+
+
+SHAPES = {0: 'snapshot (owner chain only)', 1: 'own splits first', 2: 'owner marked before its splits',
+          3: 'own splits first + owner marked before its splits (triage/C04-owner-search.patch)'}
+
+
+def decide_tie(ctx, env):
+    """The real BuildTree64 must agree, on EVERY dumped state, with one and the same shape of the model (all theorems are
+    proved for every shape); otherwise the ownership model no longer describes the code."""
+    agreeing = [v for v in range(4) if not env.tie_miss[v]]
+    ctx.cov['tie_tree_disagreements_by_model_shape'] = {SHAPES[v]: len(env.tie_miss[v]) for v in range(4)}
+    if agreeing:
+        env.shape = agreeing[0]
+        ctx.cov['model_shape_matched'] = [SHAPES[v] for v in agreeing]
+        return
+    v = min(range(4), key=lambda w: len(env.tie_miss[w]))
+    env.shape = v
+    label, c, (ci, ct, fr, pc, rs), cpp, m = env.tie_miss[v][0]
+    try:
+        small = shrink(env, c, (ct, fr, pc, rs, None), 'tie.tree', budget=80)
+    except Exception:
+        small = dict(S=c['S'], O=c.get('O', []), C=c['C'], geom=c.get('geom'))
+    ctx.violation('tie.tree', '%s/%s %s: the real BuildTree64 and the ownership model (closest shape: %s, %d of %d states differ) build different '
+                  'trees from the same state: C++ %s / model %s' % (CT[ct], FR[fr], c['kind'], SHAPES[v], len(env.tie_miss[v]),
+                                                                    ctx.cov.get('tie_tree_runs', 0), cpp[:120], m[:120]),
+                  replay=dict(kind='case', case=small, ct=ct, fr=fr, pc=pc, rs=rs, prec=None, key='tie.tree', shape=v), nofail=True)
 
 
 def filter_genpos(ctx, env, cases):
@@ -621,28 +686,39 @@ def run(ctx):
     rect = [rect_case(rng) for _ in range(1200 * mul)]
     rect = [c for c in rect if precondition(env, c, 'rect')]
     gp = filter_genpos(ctx, env, [genpos_case(rng) for _ in range(400 * mul)])
+    rng3 = ctx.rng.fork(3)
+    lat = [lattice_case(rng3) for _ in range(2500 * mul)] if nesting is not None else []
+    lat = [c for c in lat if precondition(env, c, 'rect')]
     phase_tie_tree(ctx, env, fixed, 'fixed')
     phase_tie_tree(ctx, env, rect, 'rect', combos=8)
+    phase_tie_tree(ctx, env, lat, 'lattice', combos=3)
     phase_tie_tree(ctx, env, gp, 'genpos', combos=6)
+    decide_tie(ctx, env)
     phase_api(ctx, env, fixed_api, 'fixed', precs=(None, 2))
     phase_api(ctx, env, rect, 'rect', precs=(None, 0, 1, 2), combos=8)
+    phase_api(ctx, env, lat, 'lattice', precs=(None,), combos=8)
     phase_api(ctx, env, gp, 'genpos', precs=(None, 2), combos=8)
-    for c in rect[:2] + gp[:2]:
+    for c in rect[:2] + gp[:1] + lat[:1]:
         ctx.sample(dict(S=c['S'], C=c['C'], kind=c['kind']))
     ctx.cov['rule'] = ('(1) owner-edit sequences: all SetOwner/pts=null sequences of length <= 4 over 3 OutRecs + random sequences of 11 kinds of '
                        'edits over <= 9 OutRecs, executed by the real functions and by the model, state compared after every edit; '
-                       '(2) whole runs: ownership state + Path1InsidePath2/bounds tables dumped after ExecuteInternal, real BuildTree64 vs model '
-                       '(parent of every node, preorder); (3) API: PolyTree64 and PolyTreeD(precision 0..2) vs Paths execution through the extracted '
-                       'exact checker tree_check on rectilinear lattice inputs with features >= 2 apart (nested frames to depth 8, touching holes, '
-                       'U/comb shapes closed by bars = horizontal joins, staircases, issue families), nested general-position stars (extracted Coq '
-                       'predicate) and the upstream PolytreeHoleOwner inputs; clip type x fill rule sampled per case, random PreserveCollinear/'
-                       'ReverseSolution; non-trivial = distinct (case, clip type, fill rule) whose tree has depth >= 2')
-    ctx.assumptions += ['SetOwner is never called with outrec == new_owner (hypothesis op_wf of C04_owner_forest; holds at every call site by inspection, '
-                        'and the self-owning result is exhibited by C04_owner_forest_refuted_without_wf)',
+                       '(2) whole runs: ownership state + Path1InsidePath2/bounds tables dumped after ExecuteInternal, real BuildTree64 vs the '
+                       'four shapes of the model (parent of every node, preorder): one shape must agree on every state; '
+                       '(3) API: PolyTree64 and PolyTreeD(precision 0..2, inputs inside ClipperD\'s range) vs Paths execution through the extracted '
+                       'exact checker tree_check on rectilinear inputs whose distinct coordinates are >= 2 apart (nested frames to depth 8, touching '
+                       'holes, U/comb shapes closed by bars = horizontal joins, staircases, issue families, overlapping rectangles on a small '
+                       'lattice, the pinned inputs of corpus/C04), nested general-position stars (extracted Coq predicate) and the upstream '
+                       'PolytreeHoleOwner inputs; clip type x fill rule sampled per case, random PreserveCollinear/ReverseSolution; '
+                       'non-trivial = distinct (case, clip type, fill rule) whose tree has depth >= 2')
+    ctx.assumptions += ['SetOwner is never called with outrec == new_owner and owners that are assigned exist (hypothesis run_ok of C04_owner_forest; '
+                        'holds at every call site by inspection, and the self-owning result is exhibited by C04_owner_forest_refuted_without_wf)',
                         'CheckBounds is modelled on a state where it has been evaluated for every OutRec (the harness forces this before dumping)',
                         'Path1InsidePath2 / bounds.Contains enter the model as tables read from the implementation; their agreement with true '
                         'containment is validated by tree_check, not proved',
-                        'general position as decided by base/GenPos.v; rectilinear inputs on a lattice of spacing >= 2']
+                        'general position as decided by base/GenPos.v; rectilinear inputs: all distinct x (y) values >= 2 apart, coincident and '
+                        'touching features allowed (the property names touching holes and horizontal joins)',
+                        'the mechanism named in a tree.nesting.* key is computed by checks/C04.py from the dumped ownership state (naming only: '
+                        'whether the property fails is decided by the extracted checker)']
     if broken and not [v for v in ctx.violations if not v['nofail']]:
         if not pr['ok']:
             ctx.violation('proof-break:Properties_C04', 'Properties_C04 no longer checks: %s' % '; '.join(pr['failed'])[:800],
@@ -668,7 +744,7 @@ def replay(ctx, path):
     c = r['case']
     for w in ('S', 'O', 'C'):
         c[w] = [[tuple(v) for v in p] for p in c.get(w, [])]
-    keys, det = eval_one(env, c, r['ct'], r['fr'], r['pc'], r['rs'], r.get('prec'))
+    keys, det = eval_one(env, c, r['ct'], r['fr'], r['pc'], r['rs'], r.get('prec'), shape=r.get('shape'))
     for d, h, pth in det.get('tree', []):
         print('  ' * d + ('hole ' if h else 'outer ') + str(pth))
     print('paths run:', det.get('closed'))
